@@ -80,6 +80,15 @@ def check(case, ctx):
             return
         raise Violation("validate-raises", f"validate({S!r}, {v!r}) raised {e!r}")
     got = not res.has_errors()
+    try:
+        from d42.validation import Validator
+        own = S.__accept__(Validator(), value=v)
+        if own.has_errors() != res.has_errors():
+            raise Violation("own-validator-differs", f"Validator() instance and validate() disagree on {S!r} / {v!r}")
+    except Violation:
+        raise
+    except Exception as e:  # noqa
+        raise Violation("own-validator-raises", f"S.__accept__(Validator(), value=...) raised {e!r} for {S!r} / {v!r}")
     src = case["src"]
     ctx.label("src:" + src)
     if case.get("share"):
